@@ -22,6 +22,9 @@ static int slack_ok(void)
 			return 0;
 	return 1;
 }
+#include <sys/mman.h>
+static int straddle;     /* place the caller's memory across the 4 GiB address boundary (possible in builds without a sanitizer) */
+static char *straddle_map;
 static void reset(int d, int m, int s, int use_static)
 {
 	/* warm restart: when the geometry is the one of the previous execution, every other reset re-initialises the SAME
@@ -31,6 +34,20 @@ static void reset(int d, int m, int s, int use_static)
 	int same = mq && rawstore && d == depth && m == msglen && s == slack && pmis == misalign && (warm++ & 1);
 	depth = d; msglen = m; slack = s; pmis = misalign;
 	size_t len = (size_t)d * m + s;
+	if (straddle) {
+		/* half of the buffers below 2^32, half above */
+		if (!straddle_map) {
+			straddle_map = mmap((void *)0xfff00000ul, 0x200000, PROT_READ | PROT_WRITE, MAP_PRIVATE | MAP_ANONYMOUS | MAP_FIXED_NOREPLACE, -1, 0);
+			if (straddle_map == MAP_FAILED) { straddle_map = NULL; straddle = 0; }
+		}
+		if (straddle_map && len < 0x100000) {
+			same = 0;
+			free(rawstore); rawstore = NULL;
+			if (!mq) mq = malloc(sizeof(*mq));
+			store = (char *)0x100000000ul - (len / 2 / (m ? m : 1)) * m - (d > 1 ? m / 2 : 0);
+			goto placed;
+		}
+	}
 	if (!same) {
 		free(rawstore);
 		free(mq);
@@ -38,6 +55,7 @@ static void reset(int d, int m, int s, int use_static)
 		store = rawstore + misalign;
 		mq = malloc(sizeof(*mq));
 	}
+placed:
 	memset(store, 0xA5, len);
 	if (use_static && m == 12) {
 		/* macro arguments spelled as unparenthesised expressions */
@@ -279,6 +297,15 @@ int main(void)
 			/* Long log2 : 2^log2 + {0, 1, 5} cycles on depths that do not divide a power of two */
 			unsigned long long base = 1ull << drv_arg(&c, 0);
 			longrun(3, 4, base); longrun(3, 1, base + 1); longrun(7, 12, base + 5); longrun(5, 8, base - 1);
+		}
+		else if (drv_is(&c, "Straddle")) {
+			/* the caller's memory lies across the 4 GiB boundary: a buffer's address has bits above 2^32 or not */
+			straddle = 1;
+			static const int geo[][2] = { { 2, 8 }, { 3, 4 }, { 4, 12 }, { 7, 1 }, { 16, 24 }, { 32, 4096 }, { 5, 1000 }, { 32, 3 } };
+			for (unsigned g = 0; g < sizeof(geo) / sizeof(geo[0]); g++)
+				for (int st = 0; st < 2; st++) { reset(geo[g][0], geo[g][1], st && geo[g][1] > 1 ? 1 : 0, st); if (!straddle) break; systematic(); }
+			printf("{\"e\":\"Reset\",\"g\":{\"depth\":1,\"msglen\":1,\"slack\":0},\"static\":%d}\n", straddle ? 2 : 3);
+			straddle = 0; rawstore = NULL; store = NULL; free(mq); mq = NULL;
 		}
 		else if (drv_is(&c, "Long1")) longrun(3, 4, (1ull << drv_arg(&c, 0)) + 1);
 		else if (drv_is(&c, "Gen")) gen(drv_arg(&c, 0), drv_arg(&c, 1), drv_arg(&c, 2), drv_arg(&c, 3));
